@@ -904,6 +904,317 @@ Section ReaderInv.
   Qed.
 End ReaderInv.
 
+(* ---------------------------------------------------------------- the same invariant, generically: over any pair
+   of predicates closed under what the reader does to paths (instantiated below for roots with trailing separators) *)
+Section ReaderGen.
+  Variable C : cfg.
+  Variables R B : bytes -> Prop.
+  Hypothesis G_root : R (c_root C).
+  Hypothesis G_join : forall p n, R p -> valid_name n = true -> B (join p n).
+  Hypothesis G_BR : forall p, B p -> R p.
+  Hypothesis G_rekey : forall src dst p,
+    R src -> B dst -> R p -> starts (src ++ [sep]) p = true -> R (replace_first src dst p).
+
+  Notation PathInv := (gpath_inv R).
+  Notation root := (c_root C).
+
+  Lemma g_pathinv_init : PathInv rinit0.
+  Proof. constructor; [intros ? ? [] | intros ? ? [] | intros ? ? [] | intros ? ? H; cbn in H; discriminate H]. Qed.
+
+  Lemma g_raw_ok_rooted x : graw_ok R B x -> R (r_path x).
+  Proof. intros [H|[H _]]; [now apply G_BR | exact H]. Qed.
+
+  Lemma g_bump_inv r : PathInv r -> PathInv (bump r).
+  Proof. intros [H1 H2 H3 H4]. constructor; assumption. Qed.
+
+  Lemma g_add_watch_inv r k t p r' k' wd :
+    PathInv r -> R p -> add_watch C r k t p = Some (r', k', wd) -> PathInv r'.
+  Proof.
+    intros [H1 H2 H3 H4] Hp H. unfold add_watch in H.
+    destruct (mem_nat (calls r) (c_faults C)); [discriminate|].
+    destruct (kadd_watch k t p (c_mask C)) as [[k1 w1]|]; [|discriminate].
+    inversion H; subst; clear H. constructor; cbn.
+    - intros wd0 p0 Hin. apply in_aset in Hin as [Hin|[-> _]]; eauto.
+    - intros p0 wd0 Hin. apply in_aset in Hin as [Hin|[_ [->|E]]]; eauto.
+      + apply ReaderFixProofs.unlabel_in in Hin. eauto.
+      + apply beqb_eq in E. now subst.
+    - exact H3.
+    - exact H4.
+  Qed.
+
+  Lemma g_walk_rooted t : forall p r ds fs,
+    R p -> wf_tree t = true -> In (r, ds, fs) (walk p t) ->
+    R r /\ forallb valid_name ds = true /\ forallb valid_name fs = true.
+  Proof.
+    induction t as [dl fl IH] using tree_ind'. intros p r ds fs Hp Hwf Hin.
+    apply wf_tree_node in Hwf as [Hfs Hds]. cbn [walk] in Hin. destruct Hin as [Hin|Hin].
+    - inversion Hin; subst. split; [exact Hp|]. split; [|exact Hfs].
+      apply forallb_forall. intros n Hn. apply in_map_iff in Hn as [d [<- Hd]].
+      rewrite Forall_forall in Hds. now destruct (Hds _ Hd).
+    - induction dl as [|[n s] dl IHdl]; [contradiction|].
+      inversion IH as [|? ? IHs IHrest]; subst. inversion Hds as [|? ? [Hn Hs] Hds']; subst.
+      cbn [fst snd] in *. apply in_app_iff in Hin as [Hin|Hin].
+      + eapply IHs; [| exact Hs | exact Hin]. apply G_BR; now apply G_join.
+      + now apply IHdl.
+  Qed.
+
+  Lemma g_walk_dirs_rooted t p q :
+    fs_names_ok t -> R p -> In q (walk_dirs t p) -> R q.
+  Proof.
+    intros Hok Hp Hin. unfold walk_dirs in Hin. apply in_flat_map in Hin as [[[r ds] fs] [Hw Hin]].
+    apply g_walk_rooted in Hw as [Hr [Hds _]]; [| exact Hp | now apply content_wf].
+    apply in_map_iff in Hin as [d [<- Hd]]. apply G_BR; apply G_join; try assumption.
+    rewrite forallb_forall in Hds. now apply Hds.
+  Qed.
+
+  Lemma g_sim_dirs_inv t rt : R rt -> forall ds r k acc r' k' acc',
+    forallb valid_name ds = true -> PathInv r -> Forall (graw_ok R B) acc ->
+    sim_dirs C r k t rt ds acc = (r', k', acc') -> PathInv r' /\ Forall (graw_ok R B) acc'.
+  Proof.
+    intros Hrt. induction ds as [|d ds IH]; intros r k acc r' k' acc' Hv Hi Ha H; cbn [sim_dirs] in H.
+    - inversion H; subst. split; assumption.
+    - apply forallb_valid_cons in Hv as [Hd Hv].
+      destruct (add_watch C r k t (join rt d)) as [[[r1 k1] wd]|] eqn:E.
+      + eapply IH; [exact Hv | | | exact H].
+        * eapply g_add_watch_inv; [exact Hi | | exact E]. apply G_BR; now apply G_join.
+        * apply Forall_app. split; [exact Ha|]. constructor; [|constructor]. left. cbn. now apply G_join.
+      + exact (IH (bump r) k acc r' k' acc' Hv (g_bump_inv _ Hi) Ha H).
+  Qed.
+
+  Lemma g_sim_files_inv r rt : R rt -> forall fl acc acc',
+    forallb valid_name fl = true -> Forall (graw_ok R B) acc ->
+    sim_files C r rt fl acc = Done acc' -> Forall (graw_ok R B) acc'.
+  Proof.
+    intros Hrt. induction fl as [|f fl IH]; intros acc acc' Hv Ha H; cbn [sim_files] in H.
+    - now inversion H; subst.
+    - apply forallb_valid_cons in Hv as [Hf Hv].
+      destruct (alookup beqb (dirname (join rt f)) (wfp r)).
+      + eapply IH; [exact Hv | | exact H].
+        apply Forall_app. split; [exact Ha|]. constructor; [|constructor]. left. cbn. now apply G_join.
+      + destruct (c_fix_simulate C); [|discriminate]. eapply IH; [exact Hv | exact Ha | exact H].
+  Qed.
+
+  Lemma g_simulate_inv t : forall w r k acc r' k' acc',
+    (forall rt ds fl, In (rt, ds, fl) w ->
+       R rt /\ forallb valid_name ds = true /\ forallb valid_name fl = true) ->
+    PathInv r -> Forall (graw_ok R B) acc ->
+    simulate C r k t w acc = Done (r', k', acc') -> PathInv r' /\ Forall (graw_ok R B) acc'.
+  Proof.
+    induction w as [|[[rt ds] fl] w IH]; intros r k acc r' k' acc' Hw Hi Ha H; cbn [simulate] in H.
+    - inversion H; subst. split; assumption.
+    - destruct (Hw rt ds fl (or_introl eq_refl)) as [Hrt [Hds Hfl]].
+      destruct (sim_dirs C r k t rt ds acc) as [[r1 k1] acc1] eqn:E1.
+      destruct (g_sim_dirs_inv t rt Hrt ds r k acc r1 k1 acc1 Hds Hi Ha E1) as [Hi1 Ha1].
+      destruct (sim_files C r1 rt fl acc1) as [acc2|] eqn:E2; [|discriminate].
+      eapply IH; [| exact Hi1 | | exact H].
+      + intros ? ? ? Hin. apply Hw. right. exact Hin.
+      + eapply g_sim_files_inv; [exact Hrt | exact Hfl | exact Ha1 | exact E2].
+  Qed.
+
+
+  Lemma g_rekey_loop_inv src dst : R src -> B dst ->
+    forall keys r, PathInv r -> PathInv (rekey_loop keys src dst r).
+  Proof.
+    intros Hs Hd. induction keys as [|[p w] keys IH]; intros r Hi; cbn [rekey_loop]; [exact Hi|].
+    destruct (starts (src ++ [sep]) p) eqn:Est; [|now apply IH].
+    destruct (alookup beqb p (wfp r)) as [wd|] eqn:El; [|now apply IH].
+    apply IH. destruct Hi as [H1 H2 H3 H4].
+    apply alookup_in in El as [p' [Hin Hk]]. apply beqb_eq in Hk. subst p'.
+    assert (Hnp : R (replace_first src dst p)) by (apply G_rekey; eauto).
+    constructor; cbn.
+    - intros wd0 p0 Hin0. apply in_aset in Hin0 as [Hin0|[-> _]]; eauto.
+    - intros p0 wd0 Hin0. apply in_aset in Hin0 as [Hin0|[_ [->|E]]].
+      + apply in_aremove in Hin0. eauto.
+      + exact Hnp.
+      + apply beqb_eq in E. now subst.
+    - exact H3.
+    - exact H4.
+  Qed.
+
+  Lemma g_add_dirs_inv t : forall ps r k r' k',
+    (forall p, In p ps -> R p) -> PathInv r ->
+    add_dirs C r k t ps = (r', k') -> PathInv r'.
+  Proof.
+    induction ps as [|p ps IH]; intros r k r' k' Hps Hi H; cbn [add_dirs] in H.
+    - now inversion H; subst.
+    - destruct (add_watch C r k t p) as [[[r1 k1] wd]|] eqn:E.
+      + eapply IH; [| | exact H]; [intros q Hq; apply Hps; right; exact Hq|].
+        eapply g_add_watch_inv; [exact Hi | | exact E]. apply Hps. left. reflexivity.
+      + inversion H; subst. now apply g_bump_inv.
+  Qed.
+
+
+  (* the loop body after the head (the whole body of the pinned code); a record for an unknown descriptor is skipped *)
+  Lemma g_read_one_body_inv t r k acc e r' k' acc' :
+    fs_names_ok t -> PathInv r -> Forall (graw_ok R B) acc -> kraw_ok e ->
+    read_one_body C t (r, k, acc) e = Done (r', k', acc') -> PathInv r' /\ Forall (graw_ok R B) acc'.
+  Proof.
+    intros Hfs Hi Ha He H. unfold read_one_body in H.
+    destruct (alookup N.eqb (k_wd e) (pfw r)) as [wd_path|] eqn:Ewd;
+      [|destruct (c_fix_moveout C); [inversion H; subst; split; assumption | discriminate]].
+    assert (Hwd : R wd_path).
+    { apply alookup_in in Ewd as [wd' [Hin _]]. eapply gpi_pfw; eauto. }
+    set (src_path := match k_name e with [] => wd_path | _ :: _ => join wd_path (k_name e) end) in *.
+    assert (Hsrc : R src_path).
+    { unfold src_path. destruct He as [Hv|[-> _]]; [|exact Hwd].
+      destruct (k_name e) eqn:En; [discriminate|]. rewrite <- En in *. apply G_BR; now apply G_join. }
+    set (ev := {| r_wd := k_wd e; r_mask := k_mask e; r_cookie := k_cookie e; r_name := k_name e;
+                  r_path := src_path |}) in *.
+    assert (Hev : graw_ok R B ev).
+    { unfold graw_ok, ev, src_path. cbn. destruct He as [Hv|[-> Hnp]].
+      - left. destruct (k_name e) eqn:En; [discriminate|]. rewrite <- En in *. now apply G_join.
+      - right. split; assumption. }
+    match type of H with context [match ?X with pair _ _ => _ end] => destruct X as [[r1 k1] ev1] eqn:EX end.
+    assert (H1 : PathInv r1 /\ graw_ok R B ev1).
+    { destruct (is_moved_from (k_mask e)).
+      - inversion EX; subst; clear EX. split; [|exact Hev]. destruct Hi as [P1 P2 P3 P4].
+        constructor; cbn; [eauto | eauto | |].
+        + intros c p Hin. apply in_aset in Hin as [Hin|[-> _]]; eauto.
+        + (* the new candidate is this record's src_path *)
+          intros c p Hp. destruct (c_fix_moveout C && c_recursive C && is_directory (k_mask e)); [|eauto].
+          inversion Hp; subst. exact Hsrc.
+      - destruct (is_moved_to (k_mask e)) eqn:Emt; [|inversion EX; subst; split; assumption].
+        set (ev' := {| r_wd := k_wd e; r_mask := k_mask e; r_cookie := k_cookie e; r_name := k_name e;
+                       r_path := join wd_path (k_name e) |}) in *.
+        assert (Hev' : graw_ok R B ev').
+        { left. cbn. destruct He as [Hv|[_ Hnp]]; [now apply G_join|].
+          apply noparent_not_moved_to in Hnp. congruence. }
+        assert (Hsrcb : B src_path).
+        { unfold src_path. destruct He as [Hv|[_ Hnp]]; [|apply noparent_not_moved_to in Hnp; congruence].
+          destruct (k_name e) eqn:En; [discriminate|]. rewrite <- En in *. now apply G_join. }
+        assert (Hdirs : forall r0 k0, add_dirs C r k t (src_path :: walk_dirs t src_path) = (r0, k0) -> PathInv r0).
+        { intros r0 k0 Had. eapply g_add_dirs_inv; [| exact Hi | exact Had].
+          intros p [<-|Hp]; [exact Hsrc | eapply g_walk_dirs_rooted; eauto]. }
+        destruct (alookup N.eqb (k_cookie e) (mvf r)) as [msrc|] eqn:Emv.
+        + destruct (alookup beqb msrc (wfp r)) as [mwd|] eqn:Emw.
+          * inversion EX; subst; clear EX. split; [|exact Hev'].
+            assert (Hms : R msrc).
+            { apply alookup_in in Emv as [c' [Hin _]]. eapply gpi_mvf; eauto. }
+            assert (Hi' : PathInv {| wfp := aset beqb src_path mwd (aremove beqb msrc (wfp r));
+                                     pfw := aset N.eqb mwd src_path (pfw r); mvf := mvf r; calls := calls r;
+                                     pend := pend r |}).
+            { destruct Hi as [P1 P2 P3 P4]. constructor; cbn.
+              - intros wd0 p0 Hin0. apply in_aset in Hin0 as [Hin0|[-> _]]; eauto.
+              - intros p0 wd0 Hin0. apply in_aset in Hin0 as [Hin0|[_ [->|E]]].
+                + apply in_aremove in Hin0. eauto.
+                + exact Hsrc.
+                + apply beqb_eq in E. now subst.
+              - exact P3.
+              - exact P4. }
+            destruct (c_recursive C); [now apply g_rekey_loop_inv | exact Hi'].
+          * destruct (c_fix_movein C && c_recursive C && is_directory (k_mask e) && fisdir src_path t).
+            -- destruct (add_dirs C r k t (src_path :: walk_dirs t src_path)) as [r0 k0] eqn:Ead.
+               inversion EX; subst. split; [eapply Hdirs; eauto | exact Hev'].
+            -- inversion EX; subst. split; assumption.
+        + destruct (c_fix_movein C && c_recursive C && is_directory (k_mask e) && fisdir src_path t).
+          * destruct (add_dirs C r k t (src_path :: walk_dirs t src_path)) as [r0 k0] eqn:Ead.
+            inversion EX; subst. split; [eapply Hdirs; eauto | exact Hev'].
+          * inversion EX; subst. split; assumption. }
+    destruct H1 as [Hi1 Hev1]. clear EX.
+    match type of H with
+    | context [match ?X with Done _ => _ | Crash s => Crash s end] => destruct X as [r2|] eqn:E2; [|discriminate]
+    end.
+    assert (Hi2 : PathInv r2).
+    { destruct (is_ignored (k_mask e)); [|inversion E2; subst; exact Hi1].
+      destruct (alookup N.eqb (k_wd e) (pfw r1)) as [path|]; [|discriminate].
+      assert (Hrp : PathInv {| wfp := wfp r1; pfw := aremove N.eqb (k_wd e) (pfw r1); mvf := mvf r1; calls := calls r1;
+                               pend := pend r1 |}).
+      { destruct Hi1 as [P1 P2 P3 P4]. constructor; cbn; eauto. intros wd0 p0 Hin0. apply in_aremove in Hin0. eauto. }
+      cbn [wfp pfw mvf calls pend] in E2.
+      destruct (alookup beqb path (wfp r1)) as [w|].
+      - destruct (N.eqb w (k_wd e)); inversion E2; subst; [|exact Hrp].
+        destruct Hrp as [P1 P2 P3 P4]. constructor; cbn in *; eauto. intros p0 wd0 Hin0. apply in_aremove in Hin0. eauto.
+      - destruct (c_fix_ignored C); [|discriminate]. inversion E2; subst. exact Hrp. }
+    assert (Hacc2 : Forall (graw_ok R B) (acc ++ [ev1])).
+    { apply Forall_app. split; [exact Ha | constructor; [exact Hev1 | constructor]]. }
+    destruct (c_recursive C && is_directory (k_mask e) && is_create (k_mask e)).
+    - destruct (add_watch C r2 k1 t (r_path ev1)) as [[[r3 k3] wd3]|] eqn:Eaw.
+      + eapply g_simulate_inv; [| | exact Hacc2 | exact H].
+        * intros rt ds fl Hin. eapply g_walk_rooted; [| | exact Hin]; [now apply g_raw_ok_rooted | now apply content_wf].
+        * eapply g_add_watch_inv; [exact Hi2 | | exact Eaw]. now apply g_raw_ok_rooted.
+      + inversion H; subst. split; [now apply g_bump_inv | exact Hacc2].
+    - inversion H; subst. split; assumption.
+  Qed.
+
+  (* _forget_tree only removes entries *)
+  Lemma g_forget_tree_inv p : forall keys r k r' k',
+    PathInv r -> forget_tree keys p r k = (r', k') -> PathInv r'.
+  Proof.
+    induction keys as [|[q x] keys IH]; intros r k r' k' Hi H; cbn [forget_tree] in H.
+    - now inversion H; subst.
+    - destruct (beqb q p || starts (p ++ [sep]) q); [|eauto].
+      destruct (alookup beqb q (wfp r)) as [wd|]; [|eauto].
+      assert (Hr1 : PathInv {| wfp := aremove beqb q (wfp r); pfw := pfw r; mvf := mvf r; calls := calls r; pend := pend r |}).
+      { destruct Hi as [P1 P2 P3 P4]. constructor; cbn; eauto. intros p0 wd0 Hin0. apply in_aremove in Hin0. eauto. }
+      destruct (alookup N.eqb wd (pfw r)) as [q'|]; [|eauto].
+      destruct (beqb q' q); [|eauto].
+      eapply IH; [|exact H]. cbn [wfp pfw mvf calls pend].
+      destruct Hr1 as [P1 P2 P3 P4]. constructor; cbn in *; eauto. intros wd0 p0 Hin0. apply in_aremove in Hin0. eauto.
+  Qed.
+
+  (* the head of the loop body: the candidate is dropped; on a mismatch the moved-out tree is forgotten *)
+  Lemma g_settle_pending_inv r k e r' k' : PathInv r -> settle_pending C r k e = (r', k') -> PathInv r'.
+  Proof.
+    intros Hi H. unfold settle_pending in H.
+    destruct (c_fix_moveout C); [|now inversion H; subst].
+    destruct (pend r) as [[c p]|]; [|now inversion H; subst].
+    assert (Hr0 : PathInv {| wfp := wfp r; pfw := pfw r; mvf := mvf r; calls := calls r; pend := None |}).
+    { destruct Hi as [P1 P2 P3 P4]. constructor; cbn; eauto. intros ? ? Hx; discriminate Hx. }
+    destruct (is_moved_to (k_mask e) && N.eqb (k_cookie e) c && amem N.eqb (k_wd e) (pfw r)); [now inversion H; subst|].
+    eapply g_forget_tree_inv; eauto.
+  Qed.
+
+  Lemma g_read_one_inv t r k acc e r' k' acc' :
+    fs_names_ok t -> PathInv r -> Forall (graw_ok R B) acc -> kraw_ok e ->
+    read_one C t (r, k, acc) e = Done (r', k', acc') -> PathInv r' /\ Forall (graw_ok R B) acc'.
+  Proof.
+    intros Hfs Hi Ha He H. unfold read_one in H.
+    destruct (settle_pending C r k e) as [r0 k0] eqn:Es.
+    eapply g_read_one_body_inv; [exact Hfs | | exact Ha | exact He | exact H].
+    eapply g_settle_pending_inv; eauto.
+  Qed.
+
+  Theorem g_read_batch_inv t : forall b r k acc r' k' acc',
+    fs_names_ok t -> PathInv r -> Forall (graw_ok R B) acc -> Forall kraw_ok b ->
+    read_batch C t (r, k, acc) b = Done (r', k', acc') -> PathInv r' /\ Forall (graw_ok R B) acc'.
+  Proof.
+    induction b as [|e b IH]; intros r k acc r' k' acc' Hfs Hi Ha Hb H; cbn [read_batch] in H.
+    - inversion H; subst. split; assumption.
+    - inversion Hb as [|? ? He Hb']; subst.
+      destruct (read_one C t (r, k, acc) e) as [[[r1 k1] acc1]|] eqn:E; [|discriminate].
+      destruct (g_read_one_inv _ _ _ _ _ _ _ _ Hfs Hi Ha He E) as [Hi1 Ha1].
+      eapply IH; eauto.
+  Qed.
+
+  Theorem g_construct_inv k t r' k' :
+    fs_names_ok t -> construct C k t = Some (r', k') -> PathInv r'.
+  Proof.
+    intros Hfs H. unfold construct in H. destruct (fisdir root t); [|discriminate].
+    destruct (add_watch C rinit0 k t root) as [[[r1 k1] wd]|] eqn:E; [|discriminate].
+    assert (Hi1 : PathInv r1).
+    { eapply g_add_watch_inv; [apply g_pathinv_init | | exact E]. exact G_root. }
+    destruct (c_recursive C); [|inversion H; subst; exact Hi1].
+    assert (Hps : forall p, In p (walk_dirs t root) -> R p).
+    { intros p Hp. eapply g_walk_dirs_rooted; eauto. }
+    clear E. revert r1 k1 Hi1 H Hps. generalize (walk_dirs t root) as ps.
+    induction ps as [|p ps IH]; intros r1 k1 Hi1 H Hps.
+    - inversion H; subst. exact Hi1.
+    - destruct (add_watch C r1 k1 t p) as [[[r2 k2] wd2]|] eqn:E2; [|discriminate].
+      eapply IH; [| exact H |]; [|intros q Hq; apply Hps; right; exact Hq].
+      eapply g_add_watch_inv; [exact Hi1 | | exact E2]. apply Hps. left. reflexivity.
+  Qed.
+
+  (* consequence: every InotifyEvent the reader outputs has a rooted src_path *)
+  Corollary g_raw_paths t b r k r' k' out :
+    fs_names_ok t -> PathInv r -> Forall kraw_ok b ->
+    read_batch C t (r, k, []) b = Done (r', k', out) -> forall x, In x out -> R (r_path x).
+  Proof.
+    intros Hfs Hi Hb H x Hx.
+    destruct (g_read_batch_inv t b r k [] r' k' out Hfs Hi (Forall_nil _) Hb H) as [_ Ho].
+    rewrite Forall_forall in Ho. apply g_raw_ok_rooted. now apply Ho.
+  Qed.
+End ReaderGen.
+
 (* ================================================================== the kernel and the file system *)
 Definition kqueue_ok (k : kst) : Prop := Forall kraw_ok (k_queue k).
 
@@ -1808,3 +2119,176 @@ Definition hm_ : list action :=
    AOp (Rename (rt_ ++ relsuffix [eacute_]) (out_ ++ relsuffix [eacute_])); ARead 10;
    AOp (Touch (out_ ++ relsuffix [eacute_; xff_])); ARead 10; ATick 100;
    AEmit; AEmit; AEmit; AEmit; AEmit; AEmit; AEmit; AEmit].
+
+(* ================================================================== the reader for any spelling of the root *)
+Section JRoot.
+  Variable root : bytes.
+  Hypothesis Hne : root <> [].
+
+  (* what os.path.join(root, n) puts in front of the name *)
+  Definition jpre : bytes := if last_is_sep root then root else root ++ [sep].
+
+  Lemma join_root_pre n : valid_name n = true -> join root n = jpre ++ n.
+  Proof.
+    intros Hn. unfold join, jpre. destruct n as [|c n']; [discriminate|].
+    rewrite (valid_nosep _ Hn c (or_introl eq_refl)). destruct root as [|r0 root']; [contradiction|].
+    destruct (last_is_sep (r0 :: root')); [reflexivity|]. now rewrite <- app_assoc.
+  Qed.
+
+  Lemma joins_cons n rel :
+    valid_name n = true -> forallb valid_name rel = true -> joins root (n :: rel) = jpre ++ n ++ relsuffix rel.
+  Proof.
+    intros Hn Hrel. cbn [joins fold_left]. destruct (join_normal root n Hn) as [H1 H2].
+    change (fold_left join rel (join root n)) with (joins (join root n) rel).
+    rewrite joins_suffix by assumption. rewrite join_root_pre by assumption. now rewrite <- app_assoc.
+  Qed.
+
+  Lemma joins_app a b : joins root (a ++ b) = joins (joins root a) b.
+  Proof. unfold joins. apply fold_left_app. Qed.
+
+  Lemma jrooted_root : jrooted root root.
+  Proof. exists []. split; reflexivity. Qed.
+
+  Lemma jjoin_below p n : jrooted root p -> valid_name n = true -> jbelow root (join p n).
+  Proof.
+    intros [rel [Hrel ->]] Hn.
+    assert (E : join (joins root rel) n = joins root (rel ++ [n])) by (rewrite joins_app; reflexivity).
+    rewrite E. destruct rel as [|a rel'].
+    - exists n, []. repeat split; assumption.
+    - apply forallb_valid_cons in Hrel as [Ha Hrel']. exists a, (rel' ++ [n]). repeat split; try assumption.
+      apply forallb_valid_snoc. split; assumption.
+  Qed.
+
+  (* a path strictly below the root is normalised, so joining more names appends "/n1/n2..." *)
+  Lemma jbelow_app p c :
+    jbelow root p -> forallb valid_name c = true -> jbelow root (p ++ relsuffix c) /\ p ++ relsuffix c = joins p c.
+  Proof.
+    intros [n [rel [Hn [Hrel ->]]]] Hc.
+    assert (Hnorm : joins root (n :: rel) <> [] /\ last_is_sep (joins root (n :: rel)) = false).
+    { cbn [joins fold_left]. change (fold_left join rel (join root n)) with (joins (join root n) rel).
+      destruct (join_normal root n Hn) as [H1 H2]. rewrite joins_suffix by assumption.
+      split; [intros H; apply app_eq_nil in H as [H _]; contradiction | now apply last_is_sep_root]. }
+    destruct Hnorm as [N1 N2].
+    assert (E : joins root (n :: rel) ++ relsuffix c = joins (joins root (n :: rel)) c)
+      by (symmetry; now apply joins_suffix).
+    split; [|exact E]. rewrite E, <- joins_app. exists n, (rel ++ c). repeat split; try assumption.
+    apply forallb_valid_app. split; assumption.
+  Qed.
+
+  Lemma length_lt_neq {A} (a b : list A) : length a < length b -> a <> b.
+  Proof. intros H E. subst. lia. Qed.
+
+  Lemma jpre_len : length root <= length jpre.
+  Proof. unfold jpre. destruct (last_is_sep root); [lia | rewrite app_length; cbn; lia]. Qed.
+
+  Lemma relsuffix_sep_head rel x : exists t, relsuffix rel ++ sep :: x = sep :: t.
+  Proof. destruct rel as [|a rel]; [exists x; reflexivity | eexists; rewrite relsuffix_cons; reflexivity]. Qed.
+
+  (* the C14 re-key for any root: a key src/rest becomes dst/rest *)
+  Lemma jrekey src dst p :
+    jrooted root src -> jbelow root dst -> jrooted root p -> starts (src ++ [sep]) p = true ->
+    jrooted root (replace_first src dst p).
+  Proof.
+    intros [rs [Hrs Hs]] Hd [rp [Hrp Hp]] Hst.
+    apply starts_spec in Hst as [rest Hrest]. rewrite <- app_assoc in Hrest. cbn [app] in Hrest.
+    assert (Hsne : src <> []).
+    { subst src. destruct rs as [|a rs']; [exact Hne|]. apply forallb_valid_cons in Hrs as [Ha Hrs'].
+      rewrite joins_cons by assumption. unfold jpre. destruct (last_is_sep root); destruct root; try contradiction; discriminate. }
+    rewrite Hrest. rewrite replace_first_prefix by exact Hsne.
+    (* it is enough to find valid names c with "/" ++ rest = relsuffix c *)
+    assert (Hc : exists c, forallb valid_name c = true /\ relsuffix c = sep :: rest).
+    { destruct rp as [|np rp'].
+      - (* p = root: too short *)
+        exfalso. cbn in Hp. subst p. destruct rs as [|ns rs'].
+        + cbn in Hs. subst src. apply (f_equal (@length N)) in Hrest. rewrite app_length in Hrest. cbn in Hrest. lia.
+        + apply forallb_valid_cons in Hrs as [Hns Hrs']. rewrite joins_cons in Hs by assumption. subst src.
+          apply (f_equal (@length N)) in Hrest. rewrite !app_length in Hrest. cbn [length] in Hrest.
+          assert (L := jpre_len). destruct ns; [discriminate|]. cbn [length] in Hrest. lia.
+      - apply forallb_valid_cons in Hrp as [Hnp Hrp']. rewrite joins_cons in Hp by assumption.
+        destruct rs as [|ns rs'].
+        + (* src = root *)
+          cbn in Hs. subst src. subst p. unfold jpre in Hrest. destruct (last_is_sep root) eqn:El.
+          * apply app_inv_head in Hrest. destruct np as [|c0 np']; [discriminate|].
+            cbn in Hrest. inversion Hrest; subst c0.
+            exfalso. assert (Hx := valid_nosep _ Hnp sep (or_introl eq_refl)). vm_compute in Hx. discriminate.
+          * rewrite <- app_assoc in Hrest. apply app_inv_head in Hrest. cbn [app] in Hrest. inversion Hrest as [Hr].
+            exists (np :: rp'). split; [cbn; now rewrite Hnp, Hrp' | now rewrite relsuffix_cons].
+        + apply forallb_valid_cons in Hrs as [Hns Hrs']. rewrite joins_cons in Hs by assumption. subst src p.
+          rewrite <- !app_assoc in Hrest. apply app_inv_head in Hrest.
+          destruct (relsuffix_sep_head rs' rest) as [T HT]. rewrite HT in Hrest.
+          destruct rp' as [|a rp''].
+          * exfalso. rewrite relsuffix_nil, app_nil_r in Hrest. symmetry in Hrest.
+            eapply (nosep_no_sep_end ns np T); eauto using valid_nosep.
+          * rewrite relsuffix_cons in Hrest.
+            apply nosep_split in Hrest as [-> Hr]; eauto using valid_nosep.
+            assert (Hpar : relsuffix rs' ++ sep :: rest = relsuffix (a :: rp'')).
+            { rewrite HT, relsuffix_cons. now rewrite Hr. }
+            destruct (relsuffix_parse rs' (a :: rp'') rest Hrs' Hrp' Hpar) as [c [Hc1 Hc2]].
+            exists c. split; [|exact Hc2]. rewrite Hc1 in Hrp'. now apply forallb_valid_app in Hrp' as [_ H]. }
+    destruct Hc as [c [Hcv Hc]]. rewrite <- Hc.
+    apply jbelow_jrooted. now apply jbelow_app.
+  Qed.
+End JRoot.
+
+Section JReader.
+  Variable C : cfg.
+  Hypothesis Hne : c_root C <> [].
+  Notation root := (c_root C).
+
+  Lemma jpath_inv_g r : jpath_inv root r <-> gpath_inv (jrooted root) r.
+  Proof.
+    split.
+    - intros (H1 & H2 & H3 & H4). constructor; assumption.
+    - intros [H1 H2 H3 H4]. repeat split; assumption.
+  Qed.
+
+  Lemma jraw_ok_g x : jraw_ok root x <-> graw_ok (jrooted root) (jbelow root) x.
+  Proof. reflexivity. Qed.
+
+  Theorem jread_batch_inv t b r k acc r' k' acc' :
+    fs_names_ok t -> jpath_inv root r -> Forall (jraw_ok root) acc -> Forall kraw_ok b ->
+    read_batch C t (r, k, acc) b = Done (r', k', acc') ->
+    jpath_inv root r' /\ Forall (jraw_ok root) acc'.
+  Proof.
+    intros Hfs Hi Ha Hb H. apply jpath_inv_g in Hi.
+    destruct (g_read_batch_inv C (jrooted root) (jbelow root) (jjoin_below root) (jbelow_jrooted root)
+                               (jrekey root Hne) t b r k acc r' k' acc' Hfs Hi Ha Hb H) as [Hi' Ha'].
+    split; [now apply jpath_inv_g | exact Ha'].
+  Qed.
+
+  Theorem jconstruct_inv k t r' k' :
+    fs_names_ok t -> construct C k t = Some (r', k') -> jpath_inv root r'.
+  Proof.
+    intros Hfs H. apply jpath_inv_g.
+    exact (g_construct_inv C (jrooted root) (jbelow root) (jrooted_root root) (jjoin_below root)
+                           (jbelow_jrooted root) k t r' k' Hfs H).
+  Qed.
+
+  Corollary jraw_paths t b r k r' k' out :
+    fs_names_ok t -> jpath_inv root r -> Forall kraw_ok b ->
+    read_batch C t (r, k, []) b = Done (r', k', out) -> forall x, In x out -> jrooted root (r_path x).
+  Proof.
+    intros Hfs Hi Hb H x Hx.
+    destruct (jread_batch_inv t b r k [] r' k' out Hfs Hi (Forall_nil _) Hb H) as [_ Ho].
+    rewrite Forall_forall in Ho. destruct (Ho x Hx) as [Hbx|[Hr _]]; [now apply jbelow_jrooted | exact Hr].
+  Qed.
+End JReader.
+
+(* data of the trailing-slash reader example: the watch was given as "/w/" *)
+Definition rts_ : bytes := rt_ ++ [sep].
+Definition Cs_ : cfg :=
+  {| c_recursive := true; c_mask := WATCHDOG_ALL; c_root := rts_; c_fix_ignored := true; c_fix_movein := true;
+     c_fix_simulate := true; c_fix_relabel := true; c_fix_moveout := true; c_faults := [] |}.
+Definition ts_ : fs :=
+  [{| f_path := rt_; f_ino := 1; f_dir := true |};
+   {| f_path := rt_ ++ relsuffix [eacute_]; f_ino := 2; f_dir := true |};
+   {| f_path := rt_ ++ relsuffix [eacute_; xff_]; f_ino := 3; f_dir := false |}].
+Definition ks_ : kst :=
+  {| k_watches := [{| kw_wd := 1; kw_ino := 1; kw_mask := WATCHDOG_ALL |}]; k_next_wd := 2; k_queue := [];
+     k_next_cookie := 1 |}.
+Definition rs_ : rstate := {| wfp := [(rts_, 1%N)]; pfw := [(1%N, rts_)]; mvf := []; calls := 0; pend := None |}.
+Definition bs_ : list kraw :=
+  [{| k_wd := 1; k_mask := N.lor IN_CREATE IN_ISDIR; k_cookie := 0; k_name := eacute_ |};
+   {| k_wd := 1; k_mask := N.lor IN_MOVED_FROM IN_ISDIR; k_cookie := 5; k_name := eacute_ |};
+   {| k_wd := 1; k_mask := N.lor IN_MOVED_TO IN_ISDIR; k_cookie := 5; k_name := zhong_ |};
+   {| k_wd := 1; k_mask := N.lor IN_ATTRIB IN_ISDIR; k_cookie := 0; k_name := [] |}].
